@@ -50,6 +50,12 @@ func genC14(repo string) (string, error) {
 			return "", err
 		}
 	}
+	// LoadClusterInfo: every stored record is put over the cache AND cached stores that storage no longer holds are dropped
+	// (model: restart / HReelect serve exactly what is stored)
+	if err := o.skeleton(cl, "RaftCluster", "LoadClusterInfo", "skel_LoadClusterInfo",
+		goast.SkelOpt{Conds: true, Calls: set("LoadMeta", "LoadStores", "PutStore", "PutLoadedStore", "GetStores", "DeleteStore", "LoadRegionsOnce")}); err != nil {
+		return "", err
+	}
 	gs, err := goast.Load(repo, "server/grpc_service.go")
 	if err != nil {
 		return "", err
